@@ -64,5 +64,10 @@ def check(ctx):
     n = flux_mode(ctx, "C03-c", "IdealReservoir")
     ctx.floor("C03-c", n, 1, "flux-mode recovery paths")
     scale_rule(ctx, "C03-d", "IdealReservoir")
+    from .c02 import rhs_rule
+    from .common import check_interp_options
+
+    rhs_rule(ctx, "C03-e")  # every step conserves what the previous level holds: no value is lifted or cut before the solve
+    check_interp_options(ctx, "C03-f", ["bluebonnet.flow.reservoir", "bluebonnet.flow.flowproperties"], 10)
     fvf_and_alpha(ctx, "C03-d")
     ctx.floor("C03", len(ctx.obligs), 10, "recovery obligations")
